@@ -78,7 +78,11 @@ pub fn ins_val() -> BoxedStrategy<Blob> {
 
 pub fn insert_src(tier: Tier) -> BoxedStrategy<InsertSrc> {
     let max = tier.pick(400usize, 3000);
+    // degenerate boundary sequences: one to four inserts made of empty keys and empty values
+    let tiny_key = prop_oneof![3 => Just(Blob::Lit(vec![])), 1 => Just(Blob::Lit(vec![0])), 1 => Just(Blob::Lit(vec![b'k']))];
+    let tiny_val = prop_oneof![3 => Just(Blob::Lit(vec![])), 1 => Just(Blob::Lit(vec![0])), 1 => Just(Blob::Lit(vec![b'v', b'v']))];
     prop_oneof![
+        2 => vec((tiny_key, tiny_val), 1..=4).prop_map(InsertSrc::List),
         3 => vec((dup_key(), ins_val()), 0..=8).prop_map(InsertSrc::List),
         4 => vec((dup_key(), ins_val()), 9..=60).prop_map(InsertSrc::List),
         2 => vec((dup_key(), ins_val()), 61..=max).prop_map(InsertSrc::List),
